@@ -414,10 +414,11 @@ def C01(g, tier):
                 sp = [[leg, k], [leg, k], [[[[], 1], [[], k]], [[[], 1], [[], k]], w, []]]
                 yield sx(["ohg_compose", bk, f, sp]), len(set(leg)) < k
                 yield sx(["ohg_compose", bk, sp, f if ohg_types(f)[0] == [w[i] for i in leg] else sp]), True
-            wrong = [1 - t if t in (0, 1) else 0 for t in tt]
+            wrong = [(t + 1) % 4 for t in tt]
             if g.r.random() < 0.5 and k:
                 wrong = list(tt)
-                wrong[g.r.randrange(k)] = 1 - wrong[g.r.randrange(k)] if wrong[0] in (0, 1) else 0
+                j = g.r.randrange(k)
+                wrong[j] = (wrong[j] + 1 + g.nat(2)) % 4
             idw = [[list(range(k)), k], [list(range(k)), k], [[[[], 1], [[], k]], [[[], 1], [[], k]], wrong, []]]
             yield sx(["ohg_compose", bk, f, idw]), k > 0
             yield sx(["ohg_compose", bk, idw, g.ohg_with_source(wrong) if g.r.random() < 0.5 else f]), k > 0
@@ -727,7 +728,7 @@ def history(g, n, allow_bad=True):
             cmds.append([g.r.choice(["add_edge_source", "add_edge_target"]), g.nat(ne if bad else ne - 1), g.nat(2)])
             nn += 1
         elif k < 0.73 and (nn or bad):
-            ids = g.nats(g.size(3), nn if bad else nn - 1) if nn else ([0] if bad else [])
+            ids = g.nats(g.r.randint(4, 8) if (g.big() and nn > 8) else g.size(3), nn if bad else nn - 1) if nn else ([0] if bad else [])
             if ids and g.r.random() < 0.35:
                 ids = ids + [g.r.choice(ids)]          # a repeated identifier
             if nn and g.r.random() < 0.5:               # make sure interfaces are present when nodes are deleted
@@ -778,7 +779,7 @@ def C11(g, tier):
         for cs in all_small_histories(2):
             yield sx(["lax_history", LEMPTY, cs]), any(c[0].startswith("delete") or c[0].startswith("h_delete") for c in cs)
     for _ in range(N(tier, 500, 5000)):
-        cs = history(g, g.r.randint(3, 14))
+        cs = history(g, g.r.randint(15, 40) if g.big() else g.r.randint(3, 14))
         start = LEMPTY if g.r.random() < 0.7 else g.lohg()
         names = [c[0] for c in cs]
         nt = any(n.startswith("delete") or n.startswith("h_delete") for n in names) and "unify" in names
@@ -879,7 +880,9 @@ def C10(g, tier):
 
 # --------------------------------------------------------------------------- functors
 def ftable(g, labels=3, elabels=3):
-    obj = [g.nats(g.r.choice([0, 1, 1, 2, 3]), 2) for _ in range(labels)]
+    if g.big():
+        labels = 5
+    obj = [g.nats(g.r.choice([0, 1, 1, 2, 3, 4, 5] if g.big() else [0, 1, 1, 2, 3]), 2) for _ in range(labels)]
     kind = [g.r.choice([0, 0, 1, 2, 3, 4, 4]) for _ in range(elabels)]
     return [obj, kind, g.r.choice([0, 3])]
 
@@ -923,9 +926,10 @@ def C13(g, tier):
 
 
 def otable(g, labels=2, elabels=3):
-    fobj = [g.nats(g.r.choice([0, 1, 1, 2]), 2) for _ in range(labels)]
-    robj = [g.nats(g.r.choice([0, 1, 1, 2]), 2) for _ in range(labels)]
-    res = [g.nats(g.r.choice([0, 0, 1, 2]), 2) for _ in range(elabels)]
+    hi = [0, 1, 2, 3, 4] if g.big() else [0, 1, 1, 2]
+    fobj = [g.nats(g.r.choice(hi), 2) for _ in range(labels)]
+    robj = [g.nats(g.r.choice(hi), 2) for _ in range(labels)]
+    res = [g.nats(g.r.choice([0, 0, 1, 2] + ([3, 4] if g.big() else [])), 2) for _ in range(elabels)]
     kind = [g.r.choice([0, 0, 0, 2]) for _ in range(elabels)]
     return [fobj, robj, res, kind]
 
@@ -980,7 +984,7 @@ def C14(g, tier):
         yield sx(["term", "vec", ["optic", P, Lx(lf)]]), nt
         yield sx(["term", "vec", ["optic_adapted", P, Lx(lf)]]), nt
     for _ in range(N(tier, 200, 2000)):
-        c = circuit(g, g.r.randint(0, 3), g.r.randint(1, 6))
+        c = circuit(g, g.r.randint(0, 3), g.r.randint(7, 18) if g.big() else g.r.randint(1, 6))
         nin, nout = len(c[0]), len(c[1])
         labs = c[2][1]
         nt = 1 in labs and 3 in labs
@@ -1070,9 +1074,9 @@ def C15(g, tier):
     for _ in range(N(tier, 500, 5000)):
         k = g.r.random()
         if k < 0.4:
-            f = dag_ohg(g, g.size(6), mult=g.r.choice([1, 1, 3, 6]))
+            f = dag_ohg(g, g.r.randint(8, 20) if g.big() else g.size(6), mult=g.r.choice([1, 1, 3, 6]))
         elif k < 0.75:
-            f = dag_ohg(g, g.r.randint(1, 6), cyclic=True, mult=g.r.choice([1, 2, 4]))
+            f = dag_ohg(g, g.r.randint(7, 16) if g.big() else g.r.randint(1, 6), cyclic=True, mult=g.r.choice([1, 2, 4]))
         else:
             f = g.ohg(maxar=2)
         nt = len(f[2][3]) >= 3
@@ -1098,7 +1102,7 @@ def single_writer_circuit(g):
     ins = list(range(nin))
     nodes = nin
     written = list(ins)
-    for _ in range(g.r.randint(1, 7)):
+    for _ in range(g.r.randint(8, 25) if g.big() else g.r.randint(1, 7)):
         lab = g.r.choice([0, 1, 2, 3, 4, 5, 6, 7, 8, 10 + g.nat(5)])
         co = len({0: [0], 1: [0], 2: [0], 3: [0, 0], 4: [], 5: [0], 6: [0], 7: [0], 8: [0, 0, 0]}.get(lab, [0]))
         ar = 0 if lab >= 10 else g.r.randint(0, 3)
@@ -1151,10 +1155,10 @@ def C17(g, tier):
         if k < 0.35:
             f = g.ohg(maxar=2)
         elif k < 0.6:
-            f = dag_ohg(g, g.size(5), cyclic=g.r.random() < 0.5, mult=g.r.choice([1, 3, 6]))
+            f = dag_ohg(g, g.r.randint(8, 18) if g.big() else g.size(5), cyclic=g.r.random() < 0.5, mult=g.r.choice([1, 3, 6]))
         else:
             # (nearly) monogamous: start from a circuit
-            c = circuit(g, g.r.randint(0, 3), g.r.randint(0, 5))
+            c = circuit(g, g.r.randint(0, 3), g.r.randint(6, 15) if g.big() else g.r.randint(0, 5))
             lh = c[2]
             n = len(lh[0])
             mk = lambda ll: [[[len(l) for l in ll], sum(len(l) for l in ll) + 1], [[v for l in ll for v in l], n]]
@@ -1182,7 +1186,7 @@ def C17(g, tier):
 
 def C18(g, tier):
     for _ in range(N(tier, 500, 5000)):
-        hgt = g.hg(nn=g.r.randint(1, 6), ne=g.size(5), maxar=2)
+        hgt = g.hg(nn=g.r.randint(8, 14), ne=g.r.randint(5, 12), maxar=2) if g.big() else g.hg(nn=g.r.randint(1, 6), ne=g.size(5), maxar=2)
         nn, ne = len(hgt[2]), len(hgt[3])
         # a sub-hypergraph: choose edges, then nodes containing their incidences
         seg = lambda c, i: c[1][0][sum(c[0][0][:i]):sum(c[0][0][: i + 1])]
@@ -1280,7 +1284,7 @@ def var_program(g, evaluable=False):
         labels.append(l)
         fresh.append(nv)
         nv += 1
-    for _ in range(g.r.randint(0, 6)):
+    for _ in range(g.r.randint(7, 16) if g.big() else g.r.randint(0, 6)):
         k = g.r.random()
         if k < 0.15:
             l = g.nat(1) + 1
